@@ -278,6 +278,11 @@ def g_kwval(rng, kind):
     return render(rng, ty(rng, kind, 0, True), 1)
 
 
+OPT_FAMILIES = [['warning_level=2', 'sub:warning_level=3'], ['c_std=c99', 'objc_std=gnu99'], ['bindir=bin', 'sbindir=sbin'],
+                ['werror=true', 'sub:werror=false'], ['buildtype=release'], ['default_library=static'],
+                ['sub:c_std=c11', 'c_std=gnu99'], ['libdir=lib', 'sub:libdir=lib64']]
+
+
 def g_project(rng, idx):
     """Returns (files, meta): a project whose targets carry arbitrary expressions in their other arguments."""
     L = []
@@ -285,11 +290,15 @@ def g_project(rng, idx):
     if rng.random() < 0.5:
         proj_kw.append("version : " + rng.choice(["'1.0'", "'1.2.3'", "'0.1' + '.2'"]))
     defopts = None
-    if rng.random() < 0.6:
-        defopts = rng.sample(['warning_level=2', 'buildtype=release', 'werror=true', 'c_std=c99', 'default_library=static'], rng.randint(1, 3))
+    if rng.random() < 0.7:
+        # entries whose key merely ENDS with another option's key sit next to it: an edit of
+        # 'warning_level' / 'c_std' / 'bindir' / 'werror' must leave them alone
+        fams = rng.sample(OPT_FAMILIES, rng.randint(1, 3))
+        defopts = [o for f in fams for o in (f if rng.random() < 0.8 else f[:1])]
+        rng.shuffle(defopts)
         proj_kw.append("default_options : [" + ', '.join("'%s'" % o for o in defopts) + "]")
-    if rng.random() < 0.3:
-        proj_kw.append("license : " + rng.choice(["'MIT'", "['MIT', 'Apache-2.0']"]))
+    if rng.random() < 0.35:
+        proj_kw.append("license : " + rng.choice(["'MIT'", "['MIT', 'Apache-2.0']", "['X-MIT', 'MIT', 'MIT-0']", "['GPL-2.0', 'LGPL-2.0', 'GPL-2.0-only']"]))
     if rng.random() < 0.3:
         proj_kw.append("meson_version : '>=0.50.0'")
     rng.shuffle(proj_kw)
@@ -317,7 +326,7 @@ def g_project(rng, idx):
         name = 't%d' % i
         var = rng.choice([None, 'tgt%d' % i, 'tgt%d' % i])
         srcs = ['a%d.c' % i, 'b%d.c' % i][:rng.randint(1, 2)]
-        form = rng.choice(['direct', 'direct', 'var', 'files', 'arr', 'mixed', 'arrx']) if not shared else 'shared'
+        form = rng.choice(['direct', 'direct', 'var', 'files', 'arr', 'mixed', 'arrx', 'nested']) if not shared else 'shared'
         ind = ''
         pre = []
         in_if = rng.random() < 0.15
@@ -336,6 +345,9 @@ def g_project(rng, idx):
             srcs = ['a%d.c' % i, 'b%d.c' % i]
             pre.append(ind + "srcs%d = ['a%d.c']" % (i, i))
             sarg = "srcs%d, 'b%d.c'" % (i, i)
+        elif form == 'nested':
+            srcs = ['a%d.c' % i, 'b%d.c' % i]
+            sarg = "['a%d.c'], 'b%d.c'" % (i, i)
         elif form == 'arrx':
             pre.append(ind + "more%d = ['m%d.c']" % (i, i))
             sarg = '[' + ', '.join(["'%s'" % srcs[0], 'more%d' % i] + ["'%s'" % x for x in srcs[1:]]) + ']'
@@ -399,7 +411,7 @@ def g_scenario(rng, meta):
         steps.append((info, {'op': 'info', 'target': tg['name'], 'expect_same_as': 0}))
     elif k < 0.45:
         own = [x for x in tg['srcs'] if x != 'sh.c']
-        gone = own if (tg['form'] == 'mixed' and rng.random() < 0.7) else [rng.choice(own)]
+        gone = own if (tg['form'] in ('mixed', 'nested') and rng.random() < 0.7) else [rng.choice(own)]
         steps.append((info, {'op': 'info', 'target': tg['name']}))
         steps.append((['target', tid, 'rm'] + gone, {'op': 'src_rm', 'target': tg['name'], 'files': gone}))
         steps.append((info, {'op': 'info', 'target': tg['name'], 'expect_removed': gone}))
@@ -433,29 +445,39 @@ def g_scenario(rng, meta):
         steps.append((['kwargs', 'info', 'target', tid], {'op': 'kw_info', 'func': 'target', 'id': tid,
                                                             'expect_kw': prev['keys'] if prev['op'] == 'kw_set' else {},
                                                             'expect_absent': prev['keys'] if prev['op'] == 'kw_del' else []}))
-    elif k < 0.82:
+    elif k < 0.80:
         kind = rng.random()
-        if kind < 0.5:
+        if kind < 0.4:
             val = rng.choice(['2.0', "1.0'rc", '3.1.4'])
             steps.append((['kwargs', 'set', 'project', '/', 'version', val], {'op': 'kw_set', 'func': 'project', 'keys': {'version': val}}))
-        elif kind < 0.75:
+        elif kind < 0.6:
             steps.append((jcmd([{'type': 'kwargs', 'function': 'project', 'id': '/', 'operation': 'add', 'kwargs': {'license': ['GPL', "it's"]}}]),
                           {'op': 'kw_add', 'func': 'project', 'keys': {'license': ['GPL', "it's"]}}))
-        else:
+        elif kind < 0.85:
             steps.append((['kwargs', 'delete', 'project', '/', 'version', 'meson_version'], {'op': 'kw_del', 'func': 'project', 'keys': ['version', 'meson_version']}))
+        elif kind < 0.93:
+            key, pre = rng.choice([('default_options', 'warning_level='), ('default_options', 'c_std='), ('default_options', 'bindir='),
+                                   ('license', 'MIT'), ('license', 'GPL-2.0')])
+            steps.append((jcmd([{'type': 'kwargs', 'function': 'project', 'id': '/', 'operation': 'remove_regex', 'kwargs': {key: [pre + '.*']}}]),
+                          {'op': 'kw_rmre', 'func': 'project', 'keys': {key: [pre]}}))
+        else:
+            key, val = rng.choice([('license', 'MIT'), ('default_options', 'werror=true'), ('license', 'GPL-2.0')])
+            steps.append((jcmd([{'type': 'kwargs', 'function': 'project', 'id': '/', 'operation': 'remove', 'kwargs': {key: [val]}}]),
+                          {'op': 'kw_remove', 'func': 'project', 'keys': {key: [val]}}))
         prev = steps[-1][1]
         steps.append((['kwargs', 'info', 'project', '/'], {'op': 'kw_info', 'func': 'project', 'id': '/',
                                                             'expect_kw': prev['keys'] if prev['op'] == 'kw_set' else {},
                                                             'expect_absent': prev['keys'] if prev['op'] == 'kw_del' else []}))
-    elif k < 0.92:
+    elif k < 0.93:
         if rng.random() < 0.6:
-            kv = dict(rng.sample([('buildtype', 'debugoptimized'), ('warning_level', '3'), ('werror', 'false'), ('c_std', 'c11'), ('cpp_std', 'c++17')], rng.randint(1, 2)))
+            kv = dict(rng.sample([('buildtype', 'debugoptimized'), ('warning_level', '3'), ('werror', 'false'), ('c_std', 'c11'), ('bindir', 'mybin'),
+                                  ('libdir', 'mylib'), ('warning_level', '1'), ('cpp_std', 'c++17')], rng.randint(1, 2)))
             argv = ['default-options', 'set']
             for a_, b_ in kv.items():
                 argv += [a_, b_]
             steps.append((argv, {'op': 'opt_set', 'opts': kv}))
         else:
-            ks = rng.sample(['buildtype', 'warning_level', 'werror', 'c_std'], rng.randint(1, 2))
+            ks = rng.sample(['buildtype', 'warning_level', 'werror', 'c_std', 'bindir', 'libdir'], rng.randint(1, 2))
             steps.append((['default-options', 'delete'] + ks, {'op': 'opt_del', 'opts': ks}))
         steps.append((['kwargs', 'info', 'project', '/'], {'op': 'kw_info', 'func': 'project', 'id': '/'}))
     elif k < 0.96:
@@ -514,9 +536,13 @@ def tree_diff(tb, ta, path, out):
                     and [x for x in pb if is_plain_str(x)] == [x for x in pa if is_plain_str(x)]:
                 for i, (x, y) in enumerate(zip(pb, pa)):
                     tree_diff(x, y, path + [i], out)
-            elif nb == na:
-                out.append(('list', path, [s_val(x[3]) for x in pb if is_plain_str(x)], [s_val(x[3]) for x in pa if is_plain_str(x)],
-                            [is_plain_str(x) for x in pb], [is_plain_str(x) for x in pa]))
+            elif len(nb) == len(na):
+                # the other members pairwise (an array among them may be an edited list itself), the plain strings as a set
+                for i, (x, y) in enumerate(zip(nb, na)):
+                    tree_diff(x, y, path + ['nonstr', i], out)
+                sb_, sa_ = [s_val(x[3]) for x in pb if is_plain_str(x)], [s_val(x[3]) for x in pa if is_plain_str(x)]
+                if sorted(sb_) != sorted(sa_) or nb == na:
+                    out.append(('list', path, sb_, sa_, [is_plain_str(x) for x in pb], [is_plain_str(x) for x in pa]))
             else:
                 out.append(('other', path + ['args'], pb, pa))
         kbd, kad = [s_val(k) for k, _ in kb], [s_val(k) for k, _ in ka]
@@ -601,11 +627,32 @@ def is_target_call(name):
     return p
 
 
+def str_entries(v):
+    """The members of a keyword value that is a plain string or an array of plain strings; None otherwise."""
+    if v is None:
+        return []
+    if is_plain_str(v):
+        return [s_val(v[3])]
+    if v and v[0] == 'arr' and not v[2] and all(is_plain_str(x) for x in v[1]):
+        return [s_val(x[3]) for x in v[1]]
+    return None
+
+
+def project_lists(stmts):
+    for s in stmts:
+        if s['tree'] is None:
+            continue
+        for c in find_call(s['tree'], lambda t: s_val(t[1]) == 'project'):
+            return {s_val(k): str_entries(v) for k, v in c[3]}
+    return {}
+
+
 class StepJudge:
     """The clauses of C17 on one command step, evaluated on the implementation's files and info."""
 
     def __init__(self, stmts_of):
         self.stmts_of = stmts_of          # text -> statements JSON or 'ERR'
+        self.edited_lists = []            # (op, keyword, entries before, edit, entries after) for the model correspondence
 
     def judge(self, before, after, exp, rc):
         """returns list of (clause, cls, detail)"""
@@ -673,7 +720,7 @@ class StepJudge:
                         F.append(('keyword argument order changed', 'argument-order-changed', {'before': x[2], 'after': x[3]}))
                 elif x[0] == 'kw':
                     allowed = set()
-                    if op in ('kw_set', 'kw_del', 'kw_add', 'kw_remove'):
+                    if op in ('kw_set', 'kw_del', 'kw_add', 'kw_remove', 'kw_rmre'):
                         allowed = set(exp['keys'])
                     elif op in ('opt_set', 'opt_del'):
                         allowed = {'default_options'}
@@ -721,6 +768,30 @@ class StepJudge:
                     for k, _ in c[3]:
                         if s_val(k) in exp['keys']:
                             F.append(('deleted keyword still present', 'value-not-set', {'key': s_val(k)}))
+        if op in ('opt_set', 'opt_del', 'kw_rmre', 'kw_remove', 'kw_add') and rc == 0 and exp.get('func', 'project') == 'project':
+            lb, la = project_lists(stb), project_lists(sta)
+            if op in ('opt_set', 'opt_del'):
+                edits = {'default_options': exp['opts']}
+            else:
+                edits = exp['keys']
+            for lkey, what in edits.items():
+                bef, aft = lb.get(lkey, []), la.get(lkey, [])
+                if bef is None or aft is None:
+                    continue          # not a plain list of strings
+                if op in ('opt_set', 'opt_del'):
+                    ks = list(what)
+                    kept = [e for e in bef if not any(e.startswith(k_ + '=') for k_ in ks)]
+                    newe = [k_ + '=' + what[k_] for k_ in sorted(what)] if op == 'opt_set' else []
+                elif op == 'kw_rmre':
+                    kept, newe = [e for e in bef if not any(e.startswith(p_) for p_ in what)], []
+                elif op == 'kw_remove':
+                    kept, newe = [e for e in bef if e not in what], []
+                else:
+                    kept, newe = list(bef), list(what)
+                self.edited_lists.append((op, lkey, bef, what, aft))
+                if aft[:len(kept)] != kept or len(aft) != len(kept) + len(newe):
+                    F.append(('entries of the edited list other than the addressed ones did not survive unchanged and in order',
+                              'unrelated-entry-changed', {'list': lkey, 'before': bef, 'after': aft, 'expected_to_remain': kept, 'edit': what}))
         if op in ('opt_set', 'opt_del') and rc == 0:
             for s in sta:
                 if s['tree'] is None:
@@ -806,6 +877,9 @@ def ref_splice(text, es):
     for i, ch in enumerate(text):
         if ch == '\n':
             starts.append(i + 1)
+    def inside(a, b):
+        return a[:4] != b[:4] and (b[0], b[1]) <= (a[0], a[1]) and (a[2], a[3]) <= (b[2], b[3])
+    es = [e for e in es if not any(inside(e, o) for o in es)]
     items = sorted(es, key=lambda e: (e[0], e[1]), reverse=True)
     raw = text
     for sl, sc, el, ec, new in items:
@@ -831,6 +905,15 @@ def g_splice(rng):
         a, b = cuts[k], cuts[k + 1]
         (sl, sc), (el, ec) = lc(a), lc(b)
         es.append((sl, sc, el, ec, rng.choice(['', 'NEW', 'f(1)', "['x',\n 'y']", 'Z'])))
+    if es and rng.random() < 0.25:
+        # a modified node inside another modified node (an array inside the call that is re-printed too)
+        sl, sc, el, ec, _ = es[0]
+        a, b = cuts[0], cuts[1]
+        if b - a >= 2:
+            i1 = rng.randint(a, b - 1)
+            i2 = rng.randint(i1 + 1, b)
+            if (i1, i2) != (a, b):
+                es.append(lc(i1) + lc(i2) + ('INNER',))
     rng.shuffle(es)
     return text, es
 
@@ -1131,6 +1214,12 @@ def run(ctx):
             if st['rc'] != 0:
                 failed_cmds += 1
             replay_obj = {'project': {'files': c['files'], 'steps': c['steps'][:k + 1]}, 'step': k, 'command': argv}
+            if st['rc'] not in (0, 99) and 'Unhandled python exception' in (st['err'] or '') and 'rewriter.py' in (st['err'] or '') \
+                    and exp['op'] not in ('info', 'kw_info'):
+                last = [l for l in st['err'].split('\n') if 'Error' in l and ':' in l and not l.startswith('ERROR')]
+                ctx.violation('C17:cli:%s:internal-error' % exp['op'],
+                              '`meson rewrite %s` on\n%s\nends in an unhandled Python exception inside the rewriter (%s): the requested edit is not carried out'
+                              % (' '.join(argv), before[:1500], (last[-1].strip() if last else '?')), dict(replay_obj, err=st['err'][-600:]))
             if st['rc'] == 99:
                 ctx.violation('C17:cli:exception', 'meson rewrite %s raised %s' % (' '.join(argv), st['err'][:200]), replay_obj)
             for clause, cls, detail in judge.judge(before, after, exp, st['rc']):
@@ -1171,6 +1260,27 @@ def run(ctx):
                     if 'expect_exact' in exp and set(base(f) for f in srcs) != set(exp['expect_exact']):
                         ctx.violation('C17:cli:target_add:info-does-not-report-it', 'new target reports sources %s, requested %s' % (srcs, exp['expect_exact']), replay_obj)
             before = after
+    # the edited default_options lists against the model of process_default_options (Rewrite/Edits.v:
+    # opts_set / opts_remove, theorems C17_opts_*): entries of other options untouched, in order
+    mcases, mexp = [], []
+    for op, lkey, bef, what, aft in judge.edited_lists:
+        if lkey != 'default_options' or any('\x02' in e for e in bef + aft):
+            continue
+        if op == 'opt_set':
+            mcases.append(('opts_set', ['\x02'.join(bef)] + [x for k_ in sorted(what) for x in (k_, what[k_])]))
+        elif op == 'opt_del':
+            mcases.append(('opts_del', ['\x02'.join(bef)] + list(what)))
+        elif op == 'kw_rmre' and all(p_.endswith('=') for p_ in what):
+            mcases.append(('opts_del', ['\x02'.join(bef)] + [p_[:-1] for p_ in what]))
+        else:
+            continue
+        mexp.append('\x02'.join(aft))
+    if built and mcases:
+        for c_, want, got in zip(mcases, mexp, ctx.run_model(mcases)):
+            ctx.count(('opts', c_[0], tuple(c_[1])), nontrivial=True)
+            if want.lower() != got.lower() and len(ctx.disagreements) < 200:
+                ctx.disagreements.append({'case': [c_[0], c_[1]], 'implementation': want, 'model': got})
+    dist['edited_option_lists_vs_model'] = len(mcases)
     lap('judge_projects')
     ctx.cov['traces_validated_against_impl'] += nsteps
     dist.update({'projects': len(plist), 'rewrite_steps': nsteps, 'steps_by_operation': opcount, 'steps_with_nonzero_exit': failed_cmds,
